@@ -79,6 +79,8 @@ def apply(it, fn, args, dest_ty, term, caller, depth):
                 r = it.h.size_of(it, targs[0] if targs else None)
                 if r is not None:
                     return Int(64, False, val=r)
+            if it.mono and it.find_body(fn) is not None:
+                return NotImplemented        # the monomorphic instance carries the compiler's own layout constant
             return it.abstract_of("usize", {"size_of"})
         return Int(64, False, val=s)
 
